@@ -541,3 +541,85 @@ class CallSequences(Contract):
             if is_solution(r):
                 m = G.models[-1] if i == len(ctx["results"]) - 1 else None
         return out
+
+
+@register
+class ConfigAgreementNative(Contract):
+    """bounded native layer of C15: on a grid of small problems every configuration that gives a definite
+    answer gives the same verdict and the same optimum (z3's own soundness per logic is trusted; this
+    exercises the real z3 with the real option settings)"""
+
+    target = "solver.SchedulingSolver.solve"
+    props = ("C15",)
+    native_only = True
+    bounded = "native grid: 4 problems x 27 configurations (not a proof: agreement of z3's answers is z3's)"
+
+    def cases(self, tier):
+        return [dict(problem=p) for p in ("feasible", "infeasible", "makespan", "two_objectives")]
+
+    def build(self, ps, case):
+        pb = ps.SchedulingProblem(name="pb", horizon=9)
+        w = ps.Worker(name="w")
+        t1 = ps.FixedDurationTask(name="t1", duration=3)
+        t2 = ps.FixedDurationTask(name="t2", duration=2)
+        t3 = ps.VariableDurationTask(name="t3", min_duration=1, max_duration=3, optional=True)
+        for t in (t1, t2, t3):
+            t.add_required_resource(w)
+        ps.TaskPrecedence(task_before=t1, task_after=t2, offset=1)
+        if case["problem"] == "infeasible":
+            ps.TaskEndBefore(task=t2, value=5)
+        if case["problem"] in ("makespan", "two_objectives"):
+            ps.ObjectiveMinimizeMakespan()
+        if case["problem"] == "two_objectives":
+            ps.ObjectiveMinimizeFlowtime()
+        return pb
+
+    def scenario(self, ps, P, case):
+        import io, contextlib, warnings
+
+        results = []
+        configs = []
+        for optimizer in ("incremental", "optimize"):
+            for prio in (("lex",) if optimizer == "incremental" else ("lex", "weight")):
+                # only logics that cover these problems (linear integer arithmetic); under QF_IDL/QF_RDL z3 answers
+                # `unknown`, which solve() reports as "no solution": the property exempts such answers
+                for logics in (None, "QF_LIA", "QF_UFLIA"):
+                    for debug, parallel, rnd in ((False, False, False), (True, False, False), (False, True, True)):
+                        if logics == "QF_IDL" and case["problem"] in ("makespan",) and optimizer == "incremental" and False:
+                            continue
+                        configs.append(dict(optimizer=optimizer, optimize_priority=prio, logics=logics, debug=debug, parallel=parallel, random_values=rnd))
+        for cfg in configs:
+            import processscheduler.base as base
+
+            base.active_problem = None
+            pb = self.build(ps, case)
+            kw = {k: v for k, v in cfg.items() if v is not None}
+            with contextlib.redirect_stdout(io.StringIO()), warnings.catch_warnings():
+                warnings.simplefilter("ignore")
+                try:
+                    sol = ps.SchedulingSolver(problem=pb, max_time=30, **kw).solve()
+                    err = None
+                except Exception as e:  # noqa
+                    sol, err = None, f"{type(e).__name__}: {e}"
+            if err:
+                results.append((cfg, "error", err))
+            elif not sol:
+                results.append((cfg, "nosolution", None))
+            else:
+                flow = sum(t.end for t in sol.tasks.values() if t.scheduled)
+                results.append((cfg, "solution", (sol.horizon, flow)))
+        return dict(results=results)
+
+    def clauses(self, P, ctx, case):
+        res = ctx["results"]
+        errs = [(c, d) for c, k, d in res if k == "error"]
+        kinds = {k for c, k, d in res if k != "error"}
+        out = [Clause("native[no configuration raises]", z3.BoolVal(not errs), props=("C15",), kind="state", bounded=self.bounded, note=str(errs[:2])[:400])]
+        out.append(Clause("native[all configurations agree on feasibility]", z3.BoolVal(len(kinds) <= 1), props=("C15",), kind="equals", bounded=self.bounded, note=str(sorted(kinds))))
+        if case["problem"] == "makespan":
+            opts = {d[0] for c, k, d in res if k == "solution"}
+            out.append(Clause("native[all configurations reach the same optimal makespan]", z3.BoolVal(len(opts) <= 1), props=("C15",), kind="equals", bounded=self.bounded, note=str(sorted(opts))))
+        if case["problem"] == "two_objectives":
+            opts = {d[0] + d[1] for c, k, d in res if k == "solution" and (c["optimizer"] == "incremental" or c["optimize_priority"] == "weight")}
+            out.append(Clause("native[weighted-sum configurations reach the same optimum]", z3.BoolVal(len(opts) <= 1), props=("C15",), kind="equals", bounded=self.bounded, note=str(sorted(opts))))
+        return out
